@@ -285,4 +285,6 @@ MUT={
 		return scRef
 	} else {
 		gb.mu.RLock()""")],
+ 'c12-stale-error': [(I,"""		cs.initStreamErr = nil
+		close(cs.created)""","""		close(cs.created)""")],
 }
